@@ -8,6 +8,8 @@ COMMON_ASSUME = [
 
 META = {
     "C14": {
+        "technique": "runtime monitoring: recording signer/verifier digests vs independent RFC canonicalisation, exhaustive small-scope strings x chunkings, hook state coverage",
+        "level_text": "Exploration by runtime monitoring: every string over the 3-class alphabet up to length 7 (quick) / 9 (thorough) under every chunking is pushed through each of the library's canonicalisers while a recording key observes the digest; compared with an independent canonicaliser. Exhaustive for the stated small scope (the code branches only on CR/LF/other and on chunk edges), sampled beyond it.",
         "rule": "A: every string over {CR,LF,'a'} up to the tier length x every chunking (composition) through SignatureHasher(io::Write) "
                 "and Signature::verify(reader with that read schedule), digest seen by a recording signer/verifier compared with the "
                 "reference digest over canon(s); LiteralData::from_str vs canon. B: every pattern over the alphabet placed at every "
